@@ -270,6 +270,61 @@ var vC02Progs = []struct {
 	{"v1 = 0; i = 0; while i < 3 { i = i + 1; if i == 1 { continue }; j = 0; while 1 { j = j + 1; if j > 2 { break }; v1 = v1 + yy }; v1 = v1 + 10 }; v1", func(p, q, r int64) (int64, bool) { return q + q + q + q + 20, true }},
 	{"v1 = 0; i = 0; while i < 3 { i = i + 1; if i == 1 { continue }; j = 0; while j < 2 { j = j + 1; v1 = v1 + zz }; v1 = v1 + 1 }; v1", func(p, q, r int64) (int64, bool) { return r + r + r + r + 2, true }},
 	{"v1 = 0; i = 0; while i < 9 { i = i + 1; if i == 1 { continue }; if i == 3 { break }; j = 0; while j < 2 { j = j + 1; if j == 2 { break }; v1 = v1 + xx }; v1 = v1 + 5 }; v1", func(p, q, r int64) (int64, bool) { return p + 5, true }},
+	// built-in functions and methods
+	{"abs(xx)", func(p, q, r int64) (int64, bool) {
+		if p < 0 {
+			return -p, true
+		}
+		return p, true
+	}},
+	{"ceil(xx) + 0", func(p, q, r int64) (int64, bool) { return p, true }},
+	{"floor(xx) - round(yy) + toInt(zz)", func(p, q, r int64) (int64, bool) { return p - q + r, true }},
+	{"toBool(xx) * 10 + toBool(0) + toBool('') + toBool('s') * 100", func(p, q, r int64) (int64, bool) {
+		if p != 0 {
+			return 110, true
+		}
+		return 100, true
+	}},
+	{"typeId(xx) + typeId(1.5) * 10 + typeId('s') * 100", func(p, q, r int64) (int64, bool) { return 210, true }},
+	{"[xx, yy, zz].sum()", func(p, q, r int64) (int64, bool) { return p + q + r, true }},
+	{"[xx, 'w', yy, null].sum()", func(p, q, r int64) (int64, bool) { return p + q, true }},
+	{"[xx, yy, zz].kh()", func(p, q, r int64) (int64, bool) { return vMax3(p, q, r), true }},
+	{"[xx, yy, zz].kl()", func(p, q, r int64) (int64, bool) { return vMin3(p, q, r), true }},
+	{"[xx, yy, zz].kh(2)", func(p, q, r int64) (int64, bool) { return p + q + r - vMin3(p, q, r), true }},
+	{"[xx, yy, zz].kl(2)", func(p, q, r int64) (int64, bool) { return p + q + r - vMax3(p, q, r), true }},
+	{"[xx, yy, zz]kh + [xx, yy, zz]kl2", func(p, q, r int64) (int64, bool) { return vMax3(p, q, r) + p + q + r - vMax3(p, q, r), true }},
+	{"[xx, yy, zz].kh(5)", func(p, q, r int64) (int64, bool) { return p + q + r, true }},
+	{"[xx, yy].len() + [].len() * 10", func(p, q, r int64) (int64, bool) { return 2, true }},
+	{"v1 = [xx, yy]; v1.push(zz); v1.len() * 10 + (v1.pop() == zz)", func(p, q, r int64) (int64, bool) { return 31, true }},
+	{"v1 = [xx, yy, zz]; v2 = v1.shift(); (v2 == xx) * 10 + v1.len()", func(p, q, r int64) (int64, bool) { return 12, true }},
+	{"toInt('0' + '7') + xx + toInt(toStr(42))", func(p, q, r int64) (int64, bool) { return 49 + p, true }},
+	{"toInt('12') + xx", func(p, q, r int64) (int64, bool) { return 12 + p, true }},
+	{"toInt('x')", func(p, q, r int64) (int64, bool) { return 0, false }},
+	{"toInt('')", func(p, q, r int64) (int64, bool) { return 0, false }},
+	{"toFloat('zz')", func(p, q, r int64) (int64, bool) { return 0, false }},
+	{"(toFloat('1.5') * 2 == 3.0) + (toFloat(2) == 2.0) * 10", func(p, q, r int64) (int64, bool) { return 11, true }},
+	{"ceil(2.5) + floor(0-2.5) * 10 + round(2.5) * 100 + round(0-2.5) * 1000 + toInt(2.9) * 10000 + toInt(0-2.9) * 100000", func(p, q, r int64) (int64, bool) {
+		return 3 - 30 + 300 - 3000 + 20000 - 200000, true
+	}},
+	{"(abs(0-2.5) == 2.5) + (abs(2.5) == 2.5) * 10", func(p, q, r int64) (int64, bool) { return 11, true }},
+	{"ceil('s')", func(p, q, r int64) (int64, bool) { return 0, false }},
+	{"abs(null)", func(p, q, r int64) (int64, bool) { return 0, false }},
+	{"store('v9', xx); v9 + load('v9')", func(p, q, r int64) (int64, bool) { return p + p, true }},
+	{"load(5)", func(p, q, r int64) (int64, bool) { return 0, false }},
+	{"(repr('a') == \"'a'\") + (toStr(1.5) == '1.5') * 10 + (toStr([1, 2]) == '[1, 2]') * 100 + (toStr(null) == 'null') * 1000", func(p, q, r int64) (int64, bool) { return 1111, true }},
+	{"v1 = {'k': xx, 'j': yy}; v1.len() * 100 + (v1.k == xx) * 10 + (v1['j'] == yy)", func(p, q, r int64) (int64, bool) { return 211, true }},
+	{"v1 = {'k': xx, 'j': yy}; v1.keys().len() + v1.values().sum()", func(p, q, r int64) (int64, bool) { return 2 + p + q, true }},
+	{"v1 = {'k': xx}; v2 = v1.items(); (v2[0][0] == 'k') * 10 + (v2[0][1] == xx)", func(p, q, r int64) (int64, bool) { return 11, true }},
+	{"(null ?? xx) + (yy ?? zz)", func(p, q, r int64) (int64, bool) { return p + q, true }},
+	{"[1..4].sum() + [4..1].len() * 100 + [3..3][0] * 1000", func(p, q, r int64) (int64, bool) { return 10 + 400 + 3000, true }},
+	{"s1 = 'ab' + 'cd'; (s1[1] == 'b') + (s1[-1] == 'd') * 100", func(p, q, r int64) (int64, bool) { return 101, true }},
+	{"v1 = [xx, yy]; (v1[0] == xx) + (v1[1] == yy) * 10 + (v1[-1] == yy) * 100", func(p, q, r int64) (int64, bool) { return 111, true }},
+	{"v1 = [[xx], [yy]]; v2 = 0; if v1[1][0] == yy { v2 = 7 }; v2", func(p, q, r int64) (int64, bool) { return 7, true }},
+	// power on concrete operands (on symbolic ones it is uninterpreted)
+	{"2 ** 10 + (0-2) ** 3 * 10000 + 3 ** 0 * 100000000", func(p, q, r int64) (int64, bool) { return 1024 - 80000 + 100000000, true }},
+	{"1 ** -1 + (-1) ** -3 * 10 + 2 ** -1 * 100 + (-1) ** -2 * 1000 + 5 ** -2 * 10000", func(p, q, r int64) (int64, bool) { return 1 - 10 + 0 + 1000 + 0, true }},
+	{"v1 = 0 - 1; v2 = 1; v2 ** v1 + v1 ** v1 * 10 + 2 ^ 3 * 100", func(p, q, r int64) (int64, bool) { return 1 - 10 + 800, true }},
+	{"(2 ** 0.5 > 1.41) + (2 ** 0.5 < 1.42) * 10 + (4 ** 0.5 == 2.0) * 100 + (2.0 ** 3 == 8.0) * 1000", func(p, q, r int64) (int64, bool) { return 1111, true }},
 	{"func fn1(n) { return n * 2 }; fn1(xx) + fn1(yy)", func(p, q, r int64) (int64, bool) { return p*2 + q*2, true }},
 	{"func fn1(n) { if n > 0 { return 1 }; return 2 }; fn1(xx)", func(p, q, r int64) (int64, bool) {
 		if p > 0 {
@@ -281,14 +336,6 @@ var vC02Progs = []struct {
 	{"&v1 = xx + yy; xx = zz; v1", func(p, q, r int64) (int64, bool) { return r + q, true }},
 	{"[xx, yy, zz][1]", func(p, q, r int64) (int64, bool) { return q, true }},
 	{"[xx, yy, zz][-1]", func(p, q, r int64) (int64, bool) { return r, true }},
-	{"[xx, yy, zz].sum()", func(p, q, r int64) (int64, bool) {
-		// sum() accumulates in float64 starting from 0 and converts back when all elements are integers
-		acc := float64(0)
-		acc += float64(p)
-		acc += float64(q)
-		acc += float64(r)
-		return int64(acc), true
-	}},
 	{"v1 = [xx, yy]; v2 = v1; v2[0] = zz; v1[0]", func(p, q, r int64) (int64, bool) { return r, true }},
 	{"v1 = {'k': xx}; v1.k = yy; v1['k'] + v1.k", func(p, q, r int64) (int64, bool) { return q + q, true }},
 	{"v1 = [xx, yy, zz]; v1[0:2] = [7]; v1[1]", func(p, q, r int64) (int64, bool) { return r, true }},
@@ -334,7 +381,29 @@ func b2i(b bool) int64 {
 	return 0
 }
 
-//vh:prop=C02 tiers=quick,thorough sigkeys=prog unwind=12 budget_s=1200 bounds="50 programs covering precedence and grouping, short-circuit operators returning operands, ternary and multi-arm conditions, if / else-if / else, while with break and continue (also nested, with break / continue before the inner loop), functions with early return and local scope, computed values reading later assignments, array and dict aliasing (results of + * and slicing are fresh arrays, also after pop/push), negative indices, slices and slice assignment, container equality, whitespace/newline/parenthesis variants, and an erroring statement; integer variables xx, yy, zz are 64-bit symbols; second evaluation on the same VM (after the first, including failed ones) must agree again"
+func vMax3(p, q, r int64) int64 {
+	m := p
+	if q > m {
+		m = q
+	}
+	if r > m {
+		m = r
+	}
+	return m
+}
+
+func vMin3(p, q, r int64) int64 {
+	m := p
+	if q < m {
+		m = q
+	}
+	if r < m {
+		m = r
+	}
+	return m
+}
+
+//vh:prop=C02 tiers=quick,thorough sigkeys=prog unwind=12 budget_s=1200 bounds="90 programs covering precedence and grouping, short-circuit operators returning operands, ternary and multi-arm conditions, if / else-if / else, while with break and continue (also nested, with break / continue before the inner loop), functions with early return and local scope, computed values reading later assignments, array and dict aliasing (results of + * and slicing are fresh arrays, also after pop/push), negative indices, slices and slice assignment, container equality, every built-in function and array / dict method (incl. sum / kh / kl over the full 64-bit range, conversions, error cases), ranges, string indexing, whitespace/newline/parenthesis variants, and an erroring statement; integer variables xx, yy, zz are 64-bit symbols; second evaluation on the same VM (after the first, including failed ones) must agree again"
 func VH_C02_prog() {
 	k := vParam("prog", -1)
 	if k < 0 {
